@@ -405,6 +405,10 @@ type Clause struct {
 }
 
 type LoopSpec struct {
+	ApplyWhen []*Expr // optional guard of each application (nil: unconditional)
+	Applies  []*Expr // lemma applications at the loop head: premise proved as an obligation, conclusion assumed
+	Lets     []LetDef // ghost snapshots taken at the loop head (after the invariants are assumed)
+	Progress *Expr
 	Exit []*Clause
 	ExitUses []*Expr
 	Uses []*Expr
@@ -448,6 +452,9 @@ type MidAssert struct {
 	Callee string // when set, N is the occurrence of calls to this callee
 	N  int
 	Cl *Clause
+	CheckOnly bool // `after .. check`: proved but not assumed afterwards
+	Apply *Expr // lemma application instead of an assertion: premise proved, conclusion assumed
+	When  *Expr
 }
 
 type SpecFunc struct {
@@ -782,7 +789,7 @@ func (c *Contract) addClause(word, rest string) error {
 	case "after":
 		// after N[-M] assert expr : intermediate assertion checked (and then assumed) after the N-th call instruction
 		f := strings.SplitN(rest, " ", 3)
-		if len(f) < 3 || f[1] != "assert" {
+		if len(f) < 3 || (f[1] != "assert" && f[1] != "apply" && f[1] != "check") {
 			return fmt.Errorf("expected: after N[-M] assert expr")
 		}
 		lo, hi := 0, 0
@@ -793,12 +800,34 @@ func (c *Contract) addClause(word, rest string) error {
 				name = f[0][:i]
 				occ, _ = strconv.Atoi(f[0][i+1:])
 			}
+			if f[1] == "apply" {
+				// after Callee#k apply LEMMA(args) [when cond]
+				body := f[2]
+				var when *Expr
+				if k := strings.LastIndex(body, " when "); k >= 0 {
+					w, err := ParseExpr(strings.TrimSpace(body[k+6:]))
+					if err != nil {
+						return err
+					}
+					when = w
+					body = body[:k]
+				}
+				e, err := ParseExpr(body)
+				if err != nil {
+					return err
+				}
+				if e.Kind != "call" {
+					return fmt.Errorf("after .. apply expects LEMMA(args)")
+				}
+				c.Asserts = append(c.Asserts, &MidAssert{Callee: name, N: occ, Cl: &Clause{E: e, Text: f[2]}, Apply: e, When: when})
+				return nil
+			}
 			tags, body := parseTags(f[2])
 			e, err := ParseExpr(body)
 			if err != nil {
 				return err
 			}
-			c.Asserts = append(c.Asserts, &MidAssert{Callee: name, N: occ, Cl: &Clause{Tags: tags, E: e, Text: body}})
+			c.Asserts = append(c.Asserts, &MidAssert{Callee: name, N: occ, Cl: &Clause{Tags: tags, E: e, Text: body}, CheckOnly: f[1] == "check"})
 			return nil
 		}
 		if i := strings.Index(f[0], "-"); i >= 0 {
@@ -895,6 +924,47 @@ func (c *Contract) addClause(word, rest string) error {
 				return err
 			}
 			ls.Uses = append(ls.Uses, e)
+		case "let":
+			// loop N let x := expr, ... : ghost snapshot of expr at the loop head of the current iteration
+			for _, part := range splitTop(f[2], ',') {
+				i := strings.Index(part, ":=")
+				if i < 0 {
+					return fmt.Errorf("bad loop let %q", part)
+				}
+				e, err := ParseExpr(strings.TrimSpace(part[i+2:]))
+				if err != nil {
+					return err
+				}
+				ls.Lets = append(ls.Lets, LetDef{Name: strings.TrimSpace(part[:i]), E: e})
+			}
+		case "apply":
+			// loop N apply LEMMA(args) [when cond]
+			body := f[2]
+			var when *Expr
+			if k := strings.LastIndex(body, " when "); k >= 0 {
+				w, err := ParseExpr(strings.TrimSpace(body[k+6:]))
+				if err != nil {
+					return err
+				}
+				when = w
+				body = body[:k]
+			}
+			ls.ApplyWhen = append(ls.ApplyWhen, when)
+			e, err := ParseExpr(body)
+			if err != nil {
+				return err
+			}
+			if e.Kind != "call" {
+				return fmt.Errorf("loop apply expects LEMMA(args)")
+			}
+			ls.Applies = append(ls.Applies, e)
+		case "progress":
+			// loop N progress expr : every iteration strictly increases expr (input is consumed) -- C06 trip bound
+			e, err := ParseExpr(f[2])
+			if err != nil {
+				return err
+			}
+			ls.Progress = e
 		case "exit-uses":
 			e, err := ParseExpr(f[2])
 			if err != nil {
